@@ -34,8 +34,13 @@ def dY : Seg K → K → K
       (cubic_derivative_d1x a.x a.y b.x b.y c.x c.y d.x d.y) (cubic_derivative_d1y a.x a.y b.x b.y c.x c.y d.x d.y)
       (cubic_derivative_d2x a.x a.y b.x b.y c.x c.y d.x d.y) (cubic_derivative_d2y a.x a.y b.x b.y c.x c.y d.x d.y) t
 
-/-- `int(math.copysign(1, tangent.y))` -/
-def tanSign (s : Seg K) (t : K) : Int := if dY s t < 0 then -1 else 1
+/-- `_directionOfTravel(i).y`: the chord between the points 1e-3 before and after the crossing (clamped to [0, 1]) -/
+def travelY (s : Seg K) (t : K) : K :=
+  (s.eval (min (t + (1 : K) / 1000) 1)).y - (s.eval (max (t - (1 : K) / 1000) 0)).y
+
+/-- `int(math.copysign(1, tangent.y))`, the tangent replaced by the direction of travel where its y component is exactly 0 -/
+def tanSign (s : Seg K) (t : K) : Int :=
+  if (if dY s t = 0 then travelY s t else dY s t) < 0 then -1 else 1
 
 /-- `s.intersections(ray)` as (t1, t2) pairs; `aligned`/`cardano` are only used for curves -/
 def segHits (sqrt : K → K) (s : Seg K) (lx px py : K) (aligned : Seg K) (cardano : List K) : List (K × K) :=
